@@ -44,7 +44,15 @@ FIXED_CONDS = [
 ]
 
 
+ALIAS_DOC = {"a": {"v": [1, "x"], "w": {"k": "q"}}, "b": {"v": [1, "x"], "w": {"k": "q"}}, "c": [{"k": "q"}, {"k": "q"}, [1, "x"]],
+             "d": {"v": [1, "x"]}}
+
+
 def strata(tier):
+    for parts in ([{"p": "map"}, {"p": "prim", "v": "v"}], [{"p": "mol"}, {"p": "mol"}], [{"p": "map"}, {"p": "prim", "v": "w"}],
+                  [{"p": "prim", "v": "c"}, {"p": "list"}], [{"p": "mol"}, {"p": "mol"}, {"p": "mol"}], [{"p": "map"}]):
+        for cond in FIXED_CONDS[:14]:
+            yield {"path": PC.mkpath(parts), "cond": cond, "doc": ALIAS_DOC, "alias": True}
     i = 0
     for p, doc in PC.systematic_paths(tier):
         i += 1
@@ -71,7 +79,10 @@ def gen(rng, tier):
     else:
         cond = G.tree(rng, rng.choice([0, 0, 1, 1, 2, 3]), ["value"], null_p=0.08,
                       well_typed=rng.random() < 0.6, pool=nodes or None, keypool=keys or None)
-    return {"path": p, "cond": cond, "doc": doc}
+    out = {"path": p, "cond": cond, "doc": doc}
+    if rng.random() < 0.1:
+        out["alias"] = True
+    return out
 
 
 def required(m, tier):
@@ -92,9 +103,31 @@ def cond_class(t):
     return t["c"]
 
 
+def alias_containers(doc, seed):
+    """a copy of doc in which equal containers are one shared object (as YAML anchors / aliases produce)"""
+    d = M.deep_copy(doc)
+    seen = {}
+
+    def walk(x):
+        it = x.items() if type(x) is dict else enumerate(x)
+        for k, v in list(it):
+            if type(v) in (dict, list) and v:
+                c = repr(canon(v))
+                if c in seen:
+                    x[k] = seen[c]
+                else:
+                    seen[c] = v
+                    walk(v)
+    walk(d)
+    return d
+
+
 def run(case, ctx):
     import valida
     pterm, cterm, doc = case["path"], case["cond"], case["doc"]
+    if case.get("alias"):
+        doc = alias_containers(doc, 0)
+        ctx.count("documents-with-shared-containers")
     rterm = {"path": pterm, "cond": cterm}
     conc = M.is_concrete(pterm)
     pcls = "concrete" if conc else "non-concrete"
